@@ -209,6 +209,15 @@ void src_search<T, ES>::tune_parameters()
     if (env.individuals < 4)
       env.individuals = 4;
 
+    // The population must be able to host the user-defined minimum size and
+    // tournament...
+    env.individuals = std::max({env.individuals, constrained.min_individuals,
+                                constrained.tournament_size});
+
+    // ...and the default tournament must fit into the new population.
+    if (!constrained.tournament_size)
+      env.tournament_size = std::min(env.tournament_size, env.individuals);
+
     vitaINFO << "Population size set to " << env.individuals;
   }
 
